@@ -414,11 +414,21 @@ def make_score(rng, profile="rhythm", n_parts=None, features=None, groups=False,
         metas.append(meta)
     structure = parts
     if groups and n >= 2:
-        g = S.PartGroup(group_symbol=rng.choice(["brace", "bracket"]), group_name="grp", number=1)
-        g.children = parts[:2]
-        for c in parts[:2]:
-            c.parent = g
-        structure = [g] + parts[2:]
+        def group(name, children, number):
+            g_ = S.PartGroup(group_symbol=rng.choice(["brace", "bracket"]), group_name=name, number=number)
+            g_.children = list(children)
+            for c_ in children:
+                c_.parent = g_
+            return g_
+        shape = rng.choice(["flat", "flat", "inner-first", "inner-last", "two-inner"]) if n >= 3 else "flat"
+        if shape == "flat":
+            structure = [group("grp", parts[:2], 1)] + parts[2:]
+        elif shape == "inner-first":          # Outer[Inner[P1, P2], P3]: the outer group goes on after the inner one has ended
+            structure = [group("outer", [group("inner", parts[:2], 2), parts[2]], 1)] + parts[3:]
+        elif shape == "inner-last":           # Outer[P1, Inner[P2, P3]]
+            structure = [group("outer", [parts[0], group("inner", parts[1:3], 2)], 1)] + parts[3:]
+        else:                                 # Outer[In1[P1], In2[P2, P3]]
+            structure = [group("outer", [group("in1", parts[:1], 2), group("in2", parts[1:3], 3)], 1)] + parts[3:]
     sc = S.Score(structure, id="generated")
     sc.meta = metas
     return sc
